@@ -80,7 +80,7 @@ def run_case(job):
     try:
         pars, shift = params_of(case)
         pars[:, 2] = g0
-        pts = eng.build_pts(case, {}, DT)
+        pts = eng.build_pts(case, {"transforms": variant.get("transforms", False)}, DT)
         if variant.get("order"):
             pts = [pts[i] for i in variant["order"]]
 
@@ -142,6 +142,14 @@ def run_case(job):
             wpt.compute_caps()
             oqupy.state_gradient(system=system, initial_state=rho0, target_derivative=tlin.copy(), process_tensors=[wpt],
                                  parameters=np.array(pars[:2]) * 0.5, progress_type="silent")
+        if variant.get("inplace"):
+            # a gradient-descent loop: the same system object and the same parameter array, updated in place between calls
+            pars = np.array(pars, dtype=float)
+            wanted = pars.copy()
+            pars[...] = 0.5 * wanted + 0.25
+            oqupy.state_gradient(system=system, initial_state=rho0, target_derivative=tlin.copy(), process_tensors=pts,
+                                 parameters=pars, progress_type="silent")
+            pars[...] = wanted
         if variant.get("target") == "callable":
             target_fn = lambda rho: np.conj(rho) + 0.3 * tlin
             target_arg = lambda rho: target_fn(rho)
@@ -205,7 +213,7 @@ def adjoint_job(job):
     tmat = r.normal(size=(d, d)) + 1j * r.normal(size=(d, d))
     out = []
     try:
-        pts = eng.build_pts(case, {}, DT)
+        pts = eng.build_pts(case, {"transforms": bool(job.get("transforms"))}, DT)
         ctrl = eng.build_control(case, DT, 0.0) if case["ctl"] else None
         dd = d * d
         props = [(r.normal(size=(dd, dd)) + 1j * r.normal(size=(dd, dd)), r.normal(size=(dd, dd)) + 1j * r.normal(size=(dd, dd)))
@@ -296,6 +304,11 @@ def run(ctx):
             case = dict(case, dephase=consts["Dephase"] == "TRUE")
             shifted = any(it[0] in ("h1", "h2") and it[2][0] != 0 for it in case["plan"])
             vs = [{"mode": "supplied", "target": "linear" if idx % 2 else "callable"}]
+            if case["edims"] and idx % 3 == 0:
+                # process tensors stored in another (complex) basis: transform_in / transform_out act in both passes
+                vs.append({"mode": "supplied", "target": "linear", "transforms": True})
+            if idx % 5 == 1 and not case["ctl"]:
+                vs.append({"mode": "supplied", "target": "linear", "inplace": True})
             if not shifted and (idx % (4 if quick else 2) == 0):
                 vs.append({"mode": "numeric", "target": "linear", "warmup": idx % 8 == 0})
             if not shifted and not case["ctl"] and (idx % (4 if quick else 2) == 2 % (4 if quick else 2)):
@@ -313,13 +326,13 @@ def run(ctx):
         if hk not in seen_a:
             seen_a.add(hk)
             if len(seen_a) % (12 if quick else 4) == 0:
-                ajobs.append({"case": jb["case"], "seed": ctx.seed})
+                ajobs.append({"case": jb["case"], "seed": ctx.seed, "transforms": len(ajobs) % 2 == 1 and bool(jb["case"]["edims"])})
     for jb, mm in zip(ajobs, core.pmap(adjoint_job, ajobs, chunksize=2)):
         c = jb["case"]
         cid = {"d": c["d"], "edims": c["edims"], "n": c["n"], "plan": c["plan"], "ctl": c["ctl"], "variant": "adjoint tensors"}
         ctx.case(cid, nontrivial=True)
         for x in mm:
-            ctx.violation("C08:%denv:adjoint:%s" % (len(c["edims"]), x["what"]), "%s: %s" % (cid, x), {"adjoint_case": c})
+            ctx.violation("C08:%denv:adjoint:%s" % (len(c["edims"]), x["what"]), "%s: %s" % (cid, x), {"adjoint_case": c, "transforms": jb.get("transforms", False)})
     res = core.pmap(run_case, jobs, chunksize=4)
     for job, mm in zip(jobs, res):
         c = job["case"]
@@ -342,7 +355,7 @@ def replay(ctx, rep):
     c = rep["case"]
     if "adjoint_case" in c:
         ctx.case({"replay": True})
-        for x in adjoint_job({"case": c["adjoint_case"], "seed": rep.get("seed", 0)}):
+        for x in adjoint_job({"case": c["adjoint_case"], "seed": rep.get("seed", 0), "transforms": c.get("transforms", False)}):
             ctx.violation("C08:replay:" + x["what"], str(x), c)
         return
     mm = run_case({"case": c["case"], "variant": c["variant"], "seed": rep.get("seed", 0)})
